@@ -134,7 +134,14 @@ def check(tier, seed):
         k = locate(evs[b["case"]], b["event"])
         src = sources[index[b["case"]][k]] if k < len(index[b["case"]]) else ("?", "")
         import re
-        name = re.sub(r"\d+", "N", src[0].split("@")[0].split("+")[0])
+        parts = [re.sub(r"\d+", "N", x.split("@")[0]) for x in src[0].split("+")]
+        name = parts[0]
+        if len(parts) > 1:
+            # a double mutant: the lowering error comes from one of the two mistakes; if it is the recorded consequence of
+            # either mistake taken alone it is that finding, otherwise the pair is something new
+            known = {f["signature"] for f in core.load_known().get("findings", []) if f["property"] == rep.pid}
+            alone = [p_ for p_ in parts if sig_of(b) + "|" + (p_ if p_.startswith("mutant:") else "mutant:" + p_) in known]
+            name = (alone[0] if alone[0].startswith("mutant:") else "mutant:" + alone[0]) if alone else "+".join(parts)
         rep.violation(sig_of(b) + "|" + name, f"{b['why']} {b['detail']} {src[0]}",
                       {"cmd": "frontend", "source": src[1], "origin": src[0], "why": b["why"], "detail": b["detail"]})
     canary(rep, "c13")
